@@ -1223,6 +1223,216 @@ Section LogsRun.
   Qed.
 End LogsRun.
 
+(* ================================================================ converse: a successful parallel run means
+   the sequential run succeeds too *)
+Lemma sto_dump_from_items sh mask key v l st :
+  dump_items sh mask key v = Ok l -> sto_dump sh mask key v st = Ok (l ++ st).
+Proof.
+  unfold dump_items, sto_dump. destruct v as [x|a]; destruct (int_of mask sh) as [|d t]; try discriminate.
+  - intros [= <-]. reflexivity.
+  - destruct (negb _); [discriminate|]. destruct (mapM _ _) as [l0|e]; cbn [bind]; [|discriminate].
+    intros [= <-]. now rewrite app_nil_r.
+Qed.
+
+Lemma Forall2_impl_in {A B} (R R' : A -> B -> Prop) l r :
+  Forall2 R l r -> (forall x y, In x l -> R x y -> R' x y) -> Forall2 R' l r.
+Proof.
+  induction 1 as [|x y l r Hxy Hrest IH]; intros H; constructor.
+  - apply H; [now left|exact Hxy].
+  - apply IH. intros a b Ha. apply H. now right.
+Qed.
+
+Section Converse.
+  Variable body : mfunc -> env -> result (list val).
+  Variable dis : str -> bool.
+
+  Lemma dumps_for_inv w f ms sh mask i outs evs :
+    dumps_for dis w f ms sh mask i outs = Ok evs ->
+    forall ov, In ov (combine (fouts f) outs) -> Bool.eqb (dis (fst ov)) w = true ->
+    output_key ms (ext_of mask sh) i = Ok (unravel (ext_of mask sh) i)
+    /\ exists l, dump_items sh mask (unravel (ext_of mask sh) i) (snd ov) = Ok l.
+  Proof.
+    unfold dumps_for. intros H ov Hov Hw.
+    assert (In ov (filter (fun ov => Bool.eqb (dis (fst ov)) w) (combine (fouts f) outs))) as Hin
+      by (apply filter_In; split; assumption).
+    destruct (filter _ (combine (fouts f) outs)) as [|ov0 sel] eqn:Ef; [contradiction|].
+    destruct (output_key ms (ext_of mask sh) i) as [key|e] eqn:Ek; cbn [bind] in H; [|discriminate].
+    pose proof (output_key_unravel _ _ _ _ Ek) as ->. split; [reflexivity|].
+    destruct (mapM_ok_in _ _ _ ov H Hin) as [ev [Hev _]].
+    destruct (dump_items sh mask _ (snd ov)) as [l|e]; [eauto|discriminate].
+  Qed.
+
+  Section OneMapped.
+    Variables (f : mfunc) (ms : mapspec) (kw : env) (sh : list nat) (mask : list bool).
+    Notation k := (length (fouts f)).
+    Notation p := (PMapped f ms kw sh mask).
+    Hypothesis Hk : 0 < k.
+
+    Lemma seq_from_par l : forall ol A0 T0 A T S0,
+      length S0 = k ->
+      Forall2 (fun i outs => oc_res (run_task body dis (p, Some i)) = Ok outs) l ol ->
+      fold_left (fun acc io =>
+                   do st <- acc;
+                   do arrs <- mapM (fun av => place sh mask (fst io) (snd av) (fst av)) (combine (fst st) (snd io));
+                   do evs <- dumps_for dis false f ms sh mask (fst io) (snd io);
+                   Ok (arrs, snd st ++ evs)) (combine l ol) (Ok (A0, T0)) = Ok (A, T) ->
+      exists S, fold_left (seq_step body f ms kw sh mask) l (Ok (A0, S0)) = Ok (A, S).
+    Proof.
+      intros ol A0 T0 A T S0 HS HF. revert A0 T0 A T S0 HS.
+      induction HF as [|i outs l ol Hi HF IH]; intros A0 T0 A T S0 HS H; cbn [combine fold_left] in *.
+      - injection H as <- _. eauto.
+      - cbn [bind fst snd] in H.
+        destruct (mapM _ (combine A0 outs)) as [A1|e] eqn:Ea; cbn [bind] in H; [|rewrite fold_left_bind_err in H; discriminate].
+        destruct (dumps_for dis false f ms sh mask i outs) as [evp|e] eqn:Edp; cbn [bind] in H;
+          [|rewrite fold_left_bind_err in H; discriminate].
+        destruct (run_task_mapped_inv body dis _ _ _ _ _ _ _ Hi) as (sel & evw & Hs & Hb & Hl & Hdw & _).
+        assert (forall ov, In ov (combine (fouts f) outs) ->
+                  output_key ms (ext_of mask sh) i = Ok (unravel (ext_of mask sh) i)
+                  /\ exists l, dump_items sh mask (unravel (ext_of mask sh) i) (snd ov) = Ok l) as Hall.
+        { intros ov Hov. destruct (dis (fst ov)) eqn:Ed.
+          - apply (dumps_for_inv true _ _ _ _ _ _ _ Hdw ov Hov). now rewrite Ed.
+          - apply (dumps_for_inv false _ _ _ _ _ _ _ Edp ov Hov). now rewrite Ed. }
+        assert (output_key ms (ext_of mask sh) i = Ok (unravel (ext_of mask sh) i)) as Hkey.
+        { destruct (fouts f) as [|o0 os] eqn:Ef; [cbn in Hk; lia|]. destruct outs as [|v0 vs]; [cbn in Hl; discriminate|].
+          now destruct (Hall (o0, v0) (or_introl eq_refl)). }
+        set (items := fun v => match dump_items sh mask (unravel (ext_of mask sh) i) v with Ok l => l | Err _ => [] end).
+        assert (seq_step body f ms kw sh mask (Ok (A0, S0)) i
+                = Ok (A1, map (fun sv => items (snd sv) ++ fst sv) (combine S0 outs))) as Hstep.
+        { unfold seq_step. cbn [bind fst snd]. rewrite Hs. cbn [bind]. rewrite Hb. cbn [bind].
+          rewrite Hl, Nat.eqb_refl. cbn [negb]. rewrite Hkey. cbn [bind]. rewrite Ea. cbn [bind].
+          rewrite (mapM_ok_map_in _ (fun sv => items (snd sv) ++ fst sv)); [reflexivity|].
+          intros [s0 v] Hin. cbn [fst snd].
+          destruct (in_combine_of_snd v (fouts f) outs (in_combine_r _ _ _ _ Hin) ltac:(lia)) as [o Ho].
+          destruct (Hall (o, v) Ho) as [_ [l' Hl']]. cbn [snd] in Hl'. unfold items. rewrite Hl'.
+          now apply sto_dump_from_items. }
+        destruct (IH A1 (T0 ++ evp) A T (map (fun sv => items (snd sv) ++ fst sv) (combine S0 outs))) as [S HSf].
+        + rewrite map_length, combine_length. lia.
+        + exact H.
+        + exists S. now rewrite Hstep.
+    Qed.
+  End OneMapped.
+
+  Variable preps_all : list prep.
+  Variable pi : list nat.
+  Notation done := (execute body dis (flat_map tasks_of preps_all) (order (length (flat_map tasks_of preps_all)) pi)).
+
+  Lemma finish_seq_rev wtrace pre p post r c0 :
+    preps_all = pre ++ p :: post -> fouts (prep_fun p) <> [] ->
+    finish_prep dis done wtrace (length (flat_map tasks_of pre)) p = Ok r ->
+    exists c1, seq_prep body c0 p = Ok c1.
+  Proof.
+    intros Hp Hne H. destruct p as [f ms kw sh mask|f kw]; cbn [finish_prep seq_prep prep_fun] in *.
+    - destruct (mapM _ (seq 0 _)) as [ol|e] eqn:Em; cbn [bind] in H; [|discriminate].
+      destruct (collect_mapped dis f ms sh mask _ ol) as [[A T]|e] eqn:Ec; cbn [bind] in H; [|discriminate].
+      cbn [missing_of] in Em, Ec. rewrite seq_length in Em.
+      assert (Forall2 (fun i outs => oc_res (run_task body dis (PMapped f ms kw sh mask, Some i)) = Ok outs)
+                      (seq 0 (prod (ext_of mask sh))) ol) as HF.
+      { apply (Forall2_impl_in _ _ _ _ (mapM_Forall2 _ _ _ Em)). intros i outs Hi Hio. apply in_seq in Hi.
+        rewrite <- (await_slot body dis preps_all pi pre _ post i (PMapped f ms kw sh mask, Some i) Hp); [exact Hio|].
+        cbn [tasks_of missing_of]. rewrite nth_error_map, nth_error_seq0 by lia. reflexivity. }
+      unfold collect_mapped in Ec.
+      destruct (seq_from_par f ms kw sh mask ltac:(destruct (fouts f); [congruence|cbn; lia]) _ _ _ _ _ _
+                  (repeat ([] : sto) (length (fouts f))) (repeat_length _ _) HF Ec) as [S HS].
+      rewrite run_mapped_unfold. unfold init_arrs. rewrite HS. cbn [bind]. eauto.
+    - destruct (await done _) as [outs|e] eqn:Ea; cbn [bind] in H; [|discriminate].
+      rewrite <- (Nat.add_0_r (length (flat_map tasks_of pre))) in Ea.
+      rewrite (await_slot body dis preps_all pi pre _ post 0 (PSingle f kw, None) Hp) in Ea by reflexivity.
+      destruct (run_task_single_inv body dis _ _ _ Ea) as (Hb & Hl & _).
+      rewrite Hb. cbn [bind]. rewrite Hl, Nat.eqb_refl. cbn [negb]. eauto.
+  Qed.
+
+  Lemma parent_seq_rev wtrace : forall rest pre c0 ps ps',
+    preps_all = pre ++ rest -> (forall p, In p rest -> fouts (prep_fun p) <> []) ->
+    parent dis done wtrace rest (length (flat_map tasks_of pre)) ps = Ok ps' ->
+    exists c, seq_preps body c0 rest = Ok c.
+  Proof.
+    induction rest as [|p rest IH]; intros pre c0 ps ps' Hp Hne H; cbn [parent] in H.
+    - exists c0. reflexivity.
+    - destruct (finish_prep dis done wtrace _ p) as [r|e] eqn:Ef; cbn [bind] in H; [|discriminate].
+      destruct (finish_seq_rev wtrace pre p rest r c0 Hp (Hne p (or_introl eq_refl)) Ef) as [c1 Hc1].
+      rewrite <- flat_map_length_app in H.
+      destruct (IH (pre ++ [p]) c1 _ _ ltac:(now rewrite <- app_assoc) (fun q Hq => Hne q (or_intror Hq)) H) as [c Hc].
+      exists c. unfold seq_preps. cbn [fold_left bind]. rewrite Hc1. exact Hc.
+  Qed.
+End Converse.
+
+Section ConverseRun.
+  Variable body : mfunc -> env -> result (list val).
+  Variable dis : str -> bool.
+  Variable user : shape_dict.
+  Notation seq_fold := (fold_left (fun acc f => do st <- acc; run_func body user st f)).
+
+  Lemma seq_preps_gen gen : forall rs e0 new preps shapes' c,
+    r_env rs = new ++ e0 ->
+    (forall f, In f gen -> forall q, In q (fparams f) -> ~ In q (map fst new) /\ ~ In q (flat_map fouts gen)) ->
+    submit_gen user e0 (r_shapes rs) gen = Ok (preps, shapes') ->
+    seq_preps body (core_of rs) preps = Ok c ->
+    seq_fold gen (Ok rs) = Ok (state_of c shapes').
+  Proof.
+    induction gen as [|f t IH]; intros rs e0 new preps shapes' c Henv Hlay Hsub Hsp; cbn [submit_gen] in Hsub.
+    - injection Hsub as <- <-. unfold seq_preps in Hsp. cbn [fold_left] in *. injection Hsp as <-.
+      destruct rs; reflexivity.
+    - destruct (prep_func user (r_shapes rs) e0 f) as [[p sa]|e] eqn:Ep; cbn [bind fst snd] in Hsub; [|discriminate].
+      destruct (submit_gen user e0 sa t) as [[ps sb]|e] eqn:Et; cbn [bind fst snd] in Hsub; [|discriminate].
+      injection Hsub as <- <-. unfold seq_preps in Hsp. cbn [fold_left bind] in Hsp.
+      destruct (seq_prep body (core_of rs) p) as [ca|e] eqn:Ec; [|rewrite seq_preps_err in Hsp; discriminate].
+      cbn [fold_left bind]. rewrite run_func_prep, Henv.
+      rewrite prep_func_env_irrel by (intros q Hq; apply (Hlay f (or_introl eq_refl) q Hq)).
+      rewrite Ep. cbn [bind fst snd]. rewrite Ec. cbn [bind].
+      destruct (seq_prep_env _ _ _ _ Ec) as [newa [Hea Hka]]. rewrite (prep_func_fun _ _ _ _ _ _ Ep) in Hka.
+      apply (IH (state_of ca sa) e0 (newa ++ new) ps sb c).
+      + cbn [state_of r_env]. rewrite Hea. cbn [core_of fst]. rewrite Henv. now rewrite app_assoc.
+      + intros g Hg q Hq. destruct (Hlay g (or_intror Hg) q Hq) as [H1 H2]. cbn [flat_map] in H2. split.
+        * rewrite map_app. intros Hin. apply in_app_or in Hin as [Hin|Hin]; [|now apply H1].
+          apply H2. apply in_or_app. left. now apply Hka.
+        * intros Hin. apply H2. apply in_or_app. now right.
+      + exact Et.
+      + replace (core_of (state_of ca sa)) with ca by (destruct ca as [[? ?] ?]; reflexivity). exact Hsp.
+  Qed.
+
+  Lemma par_gen_seq_ok ps rs gen pi ps' :
+    st_rel ps rs ->
+    (forall f, In f gen -> forall q, In q (fparams f) -> ~ In q (flat_map fouts gen)) ->
+    (forall f, In f gen -> fouts f <> []) ->
+    par_gen body dis user ps gen pi = Ok ps' ->
+    exists rs', seq_fold gen (Ok rs) = Ok rs'.
+  Proof.
+    intros (He & Hsh & _) Hlay Hne H. unfold par_gen in H.
+    destruct (submit_gen user (p_env ps) (p_shapes ps) gen) as [[preps shapes']|e] eqn:Es; cbn [bind fst snd] in H; [|discriminate].
+    assert (forall p, In p preps -> fouts (prep_fun p) <> []) as Hne'.
+    { intros p Hp. apply Hne. rewrite <- (submit_gen_funs _ _ _ _ _ _ Es). now apply in_map. }
+    destruct (parent_seq_rev body dis preps pi _ preps [] (core_of rs) _ _ eq_refl Hne' H) as [c Hc].
+    exists (state_of c shapes'). apply (seq_preps_gen gen rs (r_env rs) [] preps shapes' c); try assumption.
+    - reflexivity.
+    - intros f Hf q Hq. split; [intros []|exact (Hlay f Hf q Hq)].
+    - now rewrite <- He, <- Hsh.
+  Qed.
+
+  Theorem par_gens_seq_ok : forall gens ps rs pis ps',
+    st_rel ps rs -> NoDup (flat_map fouts (concat gens)) -> layered gens = true ->
+    (forall f, In f (concat gens) -> fouts f <> []) ->
+    par_gens body dis user ps gens pis = Ok ps' ->
+    exists rs', seq_fold (concat gens) (Ok rs) = Ok rs'.
+  Proof.
+    induction gens as [|g rest IH]; intros ps rs pis ps' Hrel Hnd Hlay Hne H; cbn [par_gens concat] in *.
+    - exists rs. reflexivity.
+    - destruct (par_gen body dis user ps g (hd [] pis)) as [ps1|e] eqn:Eg; cbn [bind] in H; [|discriminate].
+      destruct (layered_cons _ _ Hlay) as [Hg Hrest].
+      assert (forall f, In f g -> forall q, In q (fparams f) -> ~ In q (flat_map fouts g)) as Hg'.
+      { intros f Hf q Hq Hin. apply (Hg f Hf q Hq). rewrite flat_map_app. apply in_or_app. now left. }
+      destruct (par_gen_seq_ok ps rs g (hd [] pis) ps1 Hrel Hg' (fun f Hf => Hne f (in_or_app _ _ _ (or_introl Hf))) Eg)
+        as [rs1 Hs1].
+      rewrite flat_map_app in Hnd. destruct (NoDup_app_inv _ _ Hnd) as [Hndg _].
+      destruct (par_gen_equiv body dis user ps rs g (hd [] pis) rs1 Hrel Hg' Hndg Hs1) as (ps1' & _ & Hp1 & Hrel1 & _).
+      rewrite Eg in Hp1. injection Hp1 as <-.
+      destruct (IH ps1 rs1 (tl pis) ps' Hrel1) as [rs' Hs']; [|exact Hrest| |exact H|].
+      + clear - Hnd. induction (flat_map fouts g) as [|a l IHl]; [exact Hnd|]. cbn [app] in Hnd.
+        inversion Hnd; subst. now apply IHl.
+      + intros f Hf. apply Hne. apply in_or_app. now right.
+      + exists rs'. now rewrite fold_left_app, Hs1.
+  Qed.
+End ConverseRun.
+
 (* ================================================================ the theorems *)
 Lemma ids_tasks_length p : length (ids_of_prep p) = length (tasks_of p).
 Proof. destruct p; cbn [ids_of_prep tasks_of]; [now rewrite !map_length|reflexivity]. Qed.
@@ -1332,3 +1542,38 @@ Section Theorems.
     - intros c [].
   Qed.
 End Theorems.
+
+Section Theorems2.
+  Variable body : mfunc -> env -> result (list val).
+  Variable dis : str -> bool.
+  Variable user : shape_dict.
+
+  (* converse: a parallel run that succeeds (for SOME schedule) implies that the sequential run succeeds, with the
+     same results; hence the parallel run succeeds for one schedule iff it succeeds for all of them *)
+  Theorem par_ok_seq_ok gens inputs pis ps :
+    layering_ok gens = true -> (forall f, In f (concat gens) -> fouts f <> []) ->
+    par_run body dis gens inputs user pis = Ok ps ->
+    exists rs, map_run body (concat gens) inputs user = Ok rs
+               /\ p_env ps = r_env rs /\ p_shapes ps = r_shapes rs /\ p_out ps = r_out rs
+               /\ length (p_log ps) = r_calls rs.
+  Proof.
+    intros Hl Hne H. destruct (layering_ok_split _ Hl) as [Hnd Hlay].
+    assert (st_rel (par_init inputs)
+              {| r_env := inputs; r_shapes := init_shapes inputs; r_out := []; r_calls := 0 |}) as Hrel
+      by (repeat split).
+    destruct (par_gens_seq_ok body dis user gens _ _ pis ps Hrel Hnd Hlay Hne H) as [rs Hs].
+    exists rs. split; [exact Hs|].
+    destruct (par_equiv_seq body dis user gens inputs pis rs Hl Hs) as (ps' & Hp' & H1 & H2 & H3 & H4).
+    rewrite H in Hp'. injection Hp' as <-. repeat split; assumption.
+  Qed.
+
+  Corollary par_ok_any_schedule gens inputs pis pis' ps :
+    layering_ok gens = true -> (forall f, In f (concat gens) -> fouts f <> []) ->
+    par_run body dis gens inputs user pis = Ok ps ->
+    exists ps', par_run body dis gens inputs user pis' = Ok ps' /\ p_out ps' = p_out ps /\ p_env ps' = p_env ps.
+  Proof.
+    intros Hl Hne H. destruct (par_ok_seq_ok gens inputs pis ps Hl Hne H) as (rs & Hs & H1 & _ & H3 & _).
+    destruct (par_equiv_seq body dis user gens inputs pis' rs Hl Hs) as (ps' & Hp' & H1' & _ & H3' & _).
+    exists ps'. repeat split; congruence.
+  Qed.
+End Theorems2.
